@@ -35,7 +35,13 @@ def suite(wt):
 
 
 def demo(wt, d):
-    tests = os.path.join(wt, "crates/lib/tests")
+    """runs the demonstration of a candidate in worktree wt: Rust integration tests (copied into the crate named by
+    meta.demo_crate, default the library) and/or demo/demo.sh <worktree> (exit 0 = property held)"""
+    meta = json.load(open(os.path.join(d, "meta.json")))
+    crate_dir, pkg, feats = {"id-tests": ("crates/id-tests", "gamedig-id-tests", "")}.get(
+        meta.get("demo_crate", "lib"), ("crates/lib", "gamedig", "--features serde,clap"))
+    tests = os.path.join(wt, crate_dir, "tests")
+    existed = os.path.isdir(tests)
     os.makedirs(tests, exist_ok=True)
     names = []
     for f in os.listdir(os.path.join(d, "demo")):
@@ -45,11 +51,17 @@ def demo(wt, d):
     env = dict(ENV, RUSTFLAGS="--cfg gamedig_verif")
     res = {}
     for n in names:
-        rc, out = sh(f"cargo test --offline -p gamedig --features serde,clap --test {n} -- --test-threads=1", cwd=wt, env=env)
+        rc, out = sh(f"cargo test --offline -p {pkg} {feats} --test {n} -- --test-threads=1", cwd=wt, env=env)
         m = re.search(r"test result: (\w+)\. (\d+) passed; (\d+) failed", out)
         res[n] = dict(rc=rc, summary=m.group(0) if m else out[-600:])
     for n in names:
         os.remove(os.path.join(tests, n + ".rs"))
+    if not existed and not os.listdir(tests):
+        os.rmdir(tests)
+    script = os.path.join(d, "demo", "demo.sh")
+    if os.path.exists(script):
+        rc, out = sh(["sh", script, wt], cwd=os.path.join(d, "demo"), timeout=900)
+        res["demo.sh"] = dict(rc=rc, summary=out.strip().split("\n")[-1][-300:] if out.strip() else "")
     return res
 
 
